@@ -963,6 +963,34 @@ r$u := record{n: 1, b: $in, a: "y"}
 rt.Nop2(r$u.a)
 $out := r$u.b
 
+### forkjoindeepa calls extra
+@decls
+func fw3$u(s string) string { return fw2$u(s) + "3" }
+func fw2$u(s string) string { return fw1$u(s) + "2" }
+func fw1$u(s string) string { return s + "1" }
+func fpre$u(s string) string { return s + "p" }
+func fpass$u(s string) string { return fpass2$u(s) + "!" }
+func fpass2$u(s string) string { return fpass1$u(s) + "?" }
+func fpass1$u(s string) string { return s + "." }
+@body
+y$u := fw3$u($in)
+w$u := fpre$u($in)
+$out := fpass$u(w$u + y$u)
+
+### forkjoindeepb calls extra
+@decls
+func fw3$u(s string) string { return fw2$u(s) + "3" }
+func fw2$u(s string) string { return fw1$u(s) + "2" }
+func fw1$u(s string) string { return s + "1" }
+func fpre$u(s string) string { return s + "p" }
+func fpass$u(s string) string { return fpass2$u(s) + "!" }
+func fpass2$u(s string) string { return fpass1$u(s) + "?" }
+func fpass1$u(s string) string { return s + "." }
+@body
+w$u := fpre$u($in)
+y$u := fw3$u($in)
+$out := fpass$u(w$u + y$u)
+
 ### capvalue closures
 @body
 f$u := func() string { return $in }
